@@ -244,4 +244,20 @@ Section CNF.
       apply filter_In in Hp. destruct Hp as [_ Hp]. now apply (mem_n_In neqb neqb_spec) in Hp.
     - apply forallb_forall. intros t Ht. apply filter_In in Ht. apply Ht.
   Qed.
+
+  (** ** START: the start symbol occurs in no body *)
+  Theorem start_post (G G' : gram) : wf G -> cnf_start teqb neqb fresh G = Ok G' ->
+    start_not_on_right teqb neqb G' = true.
+  Proof.
+    intros Hwf H. unfold cnf_start in H.
+    destruct (existsb (fun p => body_has_n teqb neqb (start G) (body p)) (prods G)) eqn:E.
+    - destruct (add_new fresh Prime (nonterms G) (start G)) as [[s' nts']| |] eqn:Ea; simpl in H; try discriminate.
+      inversion H; subst G'. clear H.
+      destruct (add_new_spec fresh fresh_spec _ _ _ _ _ Ea) as [Hfresh _].
+      apply (start_not_on_right_spec teqb neqb teqb_spec neqb_spec). simpl.
+      intros q Hq Hin. apply In_add_p in Hq; auto. destruct Hq as [->|Hq]; simpl in Hin.
+      + destruct Hin as [Hin|[]]. inversion Hin; subst. apply Hfresh. apply Hwf.
+      + apply Hfresh. apply (proj2 (wf_closed_under G Hwf q Hq)). exact Hin.
+    - inversion H; subst G'. unfold start_not_on_right. now rewrite E.
+  Qed.
 End CNF.
